@@ -461,8 +461,29 @@ class GenA:
             if ev is not None:
                 if self.b.cache_policy == 'random' and rng.random() < 0.3:
                     ev['cc'] = 1
+                self.maybe_dilute_stock(ev)
                 return self.maybe_hold(ev)
         return self.ev_new_container()
+
+    def maybe_dilute_stock(self, ev):
+        """Make a stock, then dilute it ten-, hundred-, thousand-fold: the target is the stock's nominal concentration with
+        the decimal point moved, in the same spelling."""
+        rng = self.rng
+        if ev.get('op') != 'solution' or len(ev.get('solutes', ())) != 1 or rng.random() >= self.p.get('p_dilute_stock', 0.3):
+            return
+        conc = ev.get('kwargs', {}).get('concentration')
+        solvent = ev.get('solvent')
+        if not isinstance(conc, str) or not isinstance(solvent, str) or self.W.msubs[ev['solutes'][0]].is_enzyme:
+            return
+        value, _, units = conc.partition(' ')
+        try:
+            v = F(value) / 10 ** rng.choice([1, 2, 3, 3, 3, 6])
+        except (ValueError, ZeroDivisionError):
+            return
+        if v <= 0 or float(v) < float(self.p.get('min_conc_base', 0)):
+            return
+        self.pending.append({'op': 'dilute', 'tgt': [ev['name'], -1], 'solute': ev['solutes'][0], 'conc': f"{dec(v, 12)} {units}",
+                             'solvent': solvent, 'obs': rng.randrange(1 << 30)})
 
     def maybe_hold(self, ev):
         """Sometimes the user keeps the slice in a variable, looks at it, and then uses that object (once or twice) instead
@@ -856,6 +877,9 @@ class GenA:
         cls = rng.choices(['lower', 'much_lower', 'higher', 'same', 'cap'], weights=self.p.get('dil_w', [8, 3, 1.5, 0.3, 1]))[0]
         if cls == 'lower':
             c = cur * F(repr(round(rng.uniform(0.2, 0.95), 3)))
+        elif cls == 'much_lower' and rng.random() < 0.35:
+            # a ten-, hundred-, thousand-fold ... dilution of the nominal (three-digit) concentration: 1 M -> 1 mM
+            c = F(format(float(cur), '.3g')) / 10 ** rng.randint(1, 6)
         elif cls == 'much_lower':
             c = cur * F(repr(round(loguniform(rng, 1e-3, 0.2), 5)))
         elif cls == 'higher':
@@ -875,8 +899,10 @@ class GenA:
                 c = top / bottom if bottom > 0 and top > 0 else cur / 2
         if c <= 0:
             return None
-        if c < self.p.get('min_conc_base', 0):
-            return None         # configurations with different internal_precision would parse such a target differently
+        if c < max(self.p.get('min_conc_base', 0), F(1, 10 ** 9)):
+            # configurations with different internal_precision would parse such a target differently; and below ten rounding
+            # steps of a parsed concentration (1e-10 base units) a target is not a meaningful request at all
+            return None
         conc = self.fmt_conc(c, units, digits=5 if self.round else 9)
         ev = {'op': 'dilute', 'tgt': [t[0], t[1]], 'solute': solute, 'conc': conc, 'solvent': solvent, 'obs': rng.randrange(1 << 30)}
         if rng.random() < (0.6 if cls == 'same' else 0.2):
@@ -954,7 +980,7 @@ class GenA:
         if not cur:
             return None
         c = cur * F(repr(round(rng.uniform(0.1, 0.9), 2)))
-        if c < self.p.get('min_conc_base', 0):
+        if c < max(self.p.get('min_conc_base', 0), F(1, 10 ** 9)):
             return None
         total = W.model.total(m, qunit) * F(repr(round(rng.uniform(0.05, 0.6), 2)))
         if total <= 0:
